@@ -18,4 +18,5 @@ for pid, (variant, pkg, test) in sorted(m.CHECKS.items()):
     seen.add((variant, pkg))
     m.build(variant, pkg)
 if os.path.isdir(os.path.join(m.H, "racep")): m.build("race", "racep")
+if os.path.isdir(os.path.join(m.H, "sched")): m.build("instrcf", "sched")
 PY
